@@ -2,7 +2,10 @@ package main
 
 import (
 	"fmt"
+	"go/ast"
+	"go/token"
 	"regexp"
+	"strconv"
 	"sort"
 	"strings"
 	"text/template/parse"
@@ -197,4 +200,219 @@ func sortedKeysU[T any](m map[string]T) []string {
 	}
 	sort.Strings(k)
 	return k
+}
+
+// typesImplied: guard pipes that imply .Parser.Types != nil, each justified by one assignment
+// in compiler/ (all of these are populated only under Options.EventBased / from arrows that
+// need a node type).
+var typesImplied = []string{".Parser.Types", ".Parser.UsedFlags", ".Parser.MappedTokens", "ReportTokens", "ReportsInvalidToken", "HasActionsWithReport", ".Lexer.UsedFlags", ".Report", "EventBased", "FixWhitespace", "ne .Type -1"}
+
+func impliesTypes(gs []tguard) bool {
+	for _, g := range gs {
+		if !g.Pol && g.Kind == "if" {
+			// an else-branch implies nothing, except else of `not X`
+			continue
+		}
+		for _, k := range typesImplied {
+			if strings.Contains(g.Pipe, k) && !strings.HasPrefix(strings.TrimSpace(g.Pipe), "not ") {
+				return true
+			}
+		}
+	}
+	return false
+}
+
+// TMPLGUARD: in files generated for every Go parser (parser.go, parser_tables.go, stream.go),
+// identifiers that exist only when the grammar has node types (listener.go: NodeType,
+// NodeFlags, Listener) are referenced only under a guard that implies .Parser.Types.
+func ruleTMPLGUARD(c *Ctx) {
+	const rule = "TMPLGUARD"
+	files, err := c.templates()
+	if err != nil {
+		c.Lost(rule, "gen/templates", "%v", err)
+		return
+	}
+	refNames := map[string]bool{"nodeTypeRef": true, "nodeTypePkg": true, "nodeFlagsRef": true, "nodeFlagsPkg": true}
+	n := 0
+	for _, fn := range []string{"go_parser.go.tmpl", "go_parser_tables.go.tmpl", "go_stream.go.tmpl"} {
+		f := files[fn]
+		if f == nil {
+			c.Lost(rule, fn, "template not found")
+			continue
+		}
+		// call-site guards of every define in this file
+		callGuards := map[string][][]tguard{}
+		for _, tn := range sortedTreeKeys(f.Trees) {
+			walkTmpl(f.Trees[tn].Root, nil, func(nd parse.Node, gs []tguard) {
+				if t, ok := nd.(*parse.TemplateNode); ok {
+					callGuards[t.Name] = append(callGuards[t.Name], append([]tguard{}, gs...))
+				}
+			})
+		}
+		var definedUnder func(def string, depth int) bool
+		definedUnder = func(def string, depth int) bool {
+			sites := callGuards[def]
+			if len(sites) == 0 || depth > 3 {
+				return false
+			}
+			for _, gs := range sites {
+				if !impliesTypes(gs) {
+					return false
+				}
+			}
+			return true
+		}
+		for _, tn := range sortedTreeKeys(f.Trees) {
+			ord := 0
+			walkTmpl(f.Trees[tn].Root, nil, func(nd parse.Node, gs []tguard) {
+				name := ""
+				switch x := nd.(type) {
+				case *parse.TemplateNode:
+					if refNames[x.Name] {
+						name = x.Name
+					}
+				case *parse.ActionNode:
+					if strings.Contains(x.String(), "node_id ") {
+						name = "node_id"
+					}
+				}
+				if name == "" {
+					return
+				}
+				n++
+				ord++
+				key := fmt.Sprintf("%s#%s:%s#%d", fn, tn, name, ord)
+				switch {
+				case impliesTypes(gs):
+					c.addT(rule, key, tmplPos(f, nd), OK, "guarded by {%s}", guardsString(gs))
+				case tn != fn && definedUnder(tn, 0):
+					c.addT(rule, key, tmplPos(f, nd), OK, "every use of {{template %q}} is guarded by a condition implying .Parser.Types", tn)
+				default:
+					c.addT(rule, key, tmplPos(f, nd), Violation, "%s is emitted under {%s}, which does not imply .Parser.Types: a Go parser without node types (no eventBased) references NodeType/NodeFlags, which only listener.go defines, and the generated package does not build", name, guardsString(gs))
+				}
+			})
+		}
+	}
+	if n < 10 {
+		c.addT(rule, "count:", "", CountDropped, "only %d references to node-type identifiers found in the parser templates (>= 10 confirmed by hand)", n)
+	}
+}
+
+var tmplBuiltins = map[string]bool{"and": true, "call": true, "html": true, "index": true, "slice": true, "js": true, "len": true, "not": true, "or": true,
+	"print": true, "printf": true, "println": true, "urlquery": true, "eq": true, "ge": true, "gt": true, "le": true, "lt": true, "ne": true}
+
+// TMPLNAMES: every {{template "x"}} names a define of the file or of the language's shared
+// templates, and every function used in a pipeline is registered (funcMap / extraFuncs); a
+// missing one is a generation-time error on the branch that reaches it, possibly an
+// un-instantiated one.
+func ruleTMPLNAMES(c *Ctx) {
+	const rule = "TMPLNAMES"
+	files, err := c.templates()
+	if err != nil {
+		c.Lost(rule, "gen/templates", "%v", err)
+		return
+	}
+	// registered functions: keys of gen.funcMap and of the maps built in extraFuncs
+	funcs := map[string]bool{}
+	if p := c.Pkg("gen"); p != nil {
+		for _, f := range p.Syntax {
+			ast.Inspect(f, func(n ast.Node) bool {
+				switch x := n.(type) {
+				case *ast.KeyValueExpr:
+					if bl, ok := x.Key.(*ast.BasicLit); ok && bl.Kind == token.STRING {
+						if s, err := strconv.Unquote(bl.Value); err == nil {
+							funcs[s] = true
+						}
+					}
+				case *ast.AssignStmt:
+					for _, l := range x.Lhs {
+						if ix, ok := l.(*ast.IndexExpr); ok {
+							if bl, ok := ix.Index.(*ast.BasicLit); ok && bl.Kind == token.STRING {
+								if s, err := strconv.Unquote(bl.Value); err == nil {
+									funcs[s] = true
+								}
+							}
+						}
+					}
+				}
+				return true
+			})
+		}
+	}
+	if len(funcs) < 20 {
+		c.Lost(rule, "gen.funcMap", "only %d registered template functions found", len(funcs))
+		return
+	}
+	nT, nF := 0, 0
+	for _, fn := range sortedKeys(files) {
+		f := files[fn]
+		lang := strings.SplitN(fn, "_", 2)[0]
+		defined := map[string]bool{}
+		for _, other := range []string{fn, lang + "_shared.go.tmpl", lang + "_cached.go.tmpl"} {
+			if of := files[other]; of != nil {
+				for k := range of.Trees {
+					defined[k] = true
+				}
+			}
+		}
+		if lang == "bison.go.tmpl" || fn == "bison.go.tmpl" {
+			for k := range files["go_shared.go.tmpl"].Trees {
+				defined[k] = true
+			}
+		}
+		for _, tn := range sortedTreeKeys(f.Trees) {
+			walkTmpl(f.Trees[tn].Root, nil, func(nd parse.Node, gs []tguard) {
+				switch x := nd.(type) {
+				case *parse.TemplateNode:
+					nT++
+					if !defined[x.Name] {
+						c.addT(rule, fmt.Sprintf("%s#%s:template %q", fn, tn, x.Name), tmplPos(f, nd), Violation, "{{template %q}} does not resolve to a define of %s or of the %s shared templates: generation fails on this branch", x.Name, fn, lang)
+					}
+				}
+				// identifiers in pipelines
+				var pipes []*parse.PipeNode
+				switch x := nd.(type) {
+				case *parse.ActionNode:
+					pipes = append(pipes, x.Pipe)
+				case *parse.IfNode:
+					pipes = append(pipes, x.Pipe)
+				case *parse.RangeNode:
+					pipes = append(pipes, x.Pipe)
+				case *parse.WithNode:
+					pipes = append(pipes, x.Pipe)
+				case *parse.TemplateNode:
+					if x.Pipe != nil {
+						pipes = append(pipes, x.Pipe)
+					}
+				}
+				var visitPipe func(p *parse.PipeNode)
+				visitPipe = func(p *parse.PipeNode) {
+					if p == nil {
+						return
+					}
+					for _, cmd := range p.Cmds {
+						for _, a := range cmd.Args {
+							switch y := a.(type) {
+							case *parse.IdentifierNode:
+								nF++
+								if !funcs[y.Ident] && !tmplBuiltins[y.Ident] {
+									c.addT(rule, fmt.Sprintf("%s#%s:func %s", fn, tn, y.Ident), tmplPos(f, nd), Violation, "function %q is used in a pipeline but is not registered in gen.funcMap/extraFuncs: generation fails on this branch", y.Ident)
+								}
+							case *parse.PipeNode:
+								visitPipe(y)
+							}
+						}
+					}
+				}
+				for _, p := range pipes {
+					visitPipe(p)
+				}
+			})
+		}
+	}
+	if nT < 100 || nF < 300 {
+		c.addT(rule, "count:", "", CountDropped, "template invocations=%d (>=100), function uses=%d (>=300)", nT, nF)
+	} else {
+		c.addT(rule, "scan", "", OK, "%d template invocations and %d function uses in %d template files resolve", nT, nF, len(files))
+	}
 }
